@@ -50,6 +50,11 @@ func (c *EventCache) Add(event *Event) (added bool) {
 	c.mu.Lock()
 	defer c.mu.Unlock()
 
+	// Ephemeral events are never retained, so they are always new.
+	if event.EventType() == EventTypeEphemeral {
+		return true
+	}
+
 	eventKey := c.getEventKey(event)
 
 	if c.isDeleted(eventKey, event.Pubkey) {
